@@ -33,7 +33,18 @@ def c14(tier, seed):
               hworld("h_queue_multi", 2, threading=1, only_tags=["queue"]),
               hworld("h_queue_spin_route", 2, threading=2, only_tags=["route"], fraction=0.2, fill="0x00"),
               hworld("h_queue_clang17", 2, threading=1, only_tags=["queue"], fraction=0.25, compiler="clang++", std="c++17", opt="-O2")]
-    return {"interp": "harness/het_interp.cpp", "trace_module": "TraceHet", "models": [route, queue], "worlds": worlds,
+    # include-event mode with a movable key taken by value (evaluation order, implicit move): shapes 1,2 of the same tables
+    incl = {"module": "HetGen", "tag": "incl", "invariants": HINV,
+            "constants": hconsts(cbs=2, enq=2, inv=2, ops={"al", "pl", "rl", "iv", "nq", "pa", "po"}, cbshapes=(1, 2), argshapes=(1, 2), predshapes=())}
+    incld = {"module": "HetGen", "tag": "incl-disp", "invariants": HINV,
+             "constants": hconsts(cbs=2, enq=0, inv=2, ops={"al", "pl", "rl", "iv"}, cbshapes=(1, 2), argshapes=(1, 2), predshapes=())}
+    def iw(name, kind, **kw):
+        w = hworld(name, kind, **kw)
+        w["source"] = "hetincl_interp.cpp"
+        return w
+    worlds += [iw("hi_queue_gxx11", 2, only_tags=["incl"]), iw("hi_queue_clang14", 2, only_tags=["incl"], compiler="clang++", std="c++14"),
+               iw("hi_queue_gxx20", 2, only_tags=["incl"], std="c++20", opt="-O2"), iw("hi_disp_clang20", 1, only_tags=["incl-disp"], compiler="clang++", std="c++20")]
+    return {"interp": "harness/het_interp.cpp", "trace_module": "TraceHet", "models": [route, queue, incl, incld], "worlds": worlds,
             "rule": "every transition of the bounded HetGen reference model over five prototypes of differently sized, non-trivial argument types: callbacks of seven "
                     "shapes (incl. callable with several prototypes / with anything), invocation and enqueue with seven argument shapes (incl. converting "
                     "ones), insert before handles of the same and of other prototypes, process / processOne / processIf with five predicate shapes over "
